@@ -7,6 +7,36 @@ use crate::oracle::{judge_arith, judge_norm, judge_refract, ArithOut, NormOut, T
 use glam::{DVec2, DVec3, DVec4, Vec2, Vec3, Vec3A, Vec4};
 use vcore::*;
 
+/// How a case's lanes become a vector. Vec3A gets a hidden fourth lane that differs from every visible
+/// lane (from_array would copy z into it), so that a kernel reading the hidden lane cannot go unnoticed.
+pub trait Mk<T, const N: usize> {
+    fn mk(a: [T; N]) -> Self;
+}
+macro_rules! mk_plain {
+    ($V:ident, $T:ident, $N:expr) => {
+        impl Mk<$T, $N> for $V {
+            #[inline]
+            fn mk(a: [$T; $N]) -> Self {
+                $V::from_array(a)
+            }
+        }
+    };
+}
+mk_plain!(Vec2, f32, 2);
+mk_plain!(Vec3, f32, 3);
+mk_plain!(Vec4, f32, 4);
+mk_plain!(DVec2, f64, 2);
+mk_plain!(DVec3, f64, 3);
+mk_plain!(DVec4, f64, 4);
+impl Mk<f32, 3> for Vec3A {
+    #[inline]
+    fn mk(a: [f32; 3]) -> Self {
+        let h = 1.0 + 2.0 * (a[0].abs() + a[1].abs() + a[2].abs());
+        let h = if h.is_finite() { h } else { 3.0 };
+        Vec3A::from_vec4(Vec4::new(a[0], a[1], a[2], h))
+    }
+}
+
 macro_rules! dim_extra {
     (d2, $o:ident, $a:ident, $b:ident) => {
         $o.perp_dot = Some($a.perp_dot($b).to64());
@@ -38,7 +68,7 @@ macro_rules! geom_type {
                 for i in 0..N {
                     a[i] = T::fb(w[i]);
                 }
-                V::from_array(a)
+                <V as Mk<T, N>>::mk(a)
             }
             #[inline]
             fn arr4(x: V) -> [f64; 4] {
@@ -107,7 +137,7 @@ macro_rules! geom_type {
                     format!("arith/{}/{}", INFO.ty, VARIANT),
                     2,
                     |env: &mut Env| {
-                        let c = env.cases(40_000, 40);
+                        let c = env.cases(100_000, 20);
                         env.prop("arith", c, gens::arith(N, INFO.bits), &arith);
                     },
                     arith,
@@ -116,7 +146,7 @@ macro_rules! geom_type {
                     format!("normalize/{}/{}", INFO.ty, VARIANT),
                     1,
                     |env: &mut Env| {
-                        let c = env.cases(30_000, 40);
+                        let c = env.cases(50_000, 20);
                         env.prop("normalize", c, gens::normalize(N, INFO.bits), &normalize);
                     },
                     normalize,
@@ -125,7 +155,7 @@ macro_rules! geom_type {
                     format!("refract/{}/{}", INFO.ty, VARIANT),
                     1,
                     |env: &mut Env| {
-                        let c = env.cases(30_000, 40);
+                        let c = env.cases(50_000, 20);
                         env.prop("refract", c, gens::refract(N, INFO.bits), &refract);
                     },
                     refract,
